@@ -3,7 +3,7 @@ from __future__ import annotations
 import operator
 import weakref
 from collections.abc import Callable, Iterator, Mapping, MutableMapping
-from typing import TYPE_CHECKING
+from typing import TYPE_CHECKING, Any
 
 from typing_extensions import TypeAlias
 
@@ -78,6 +78,11 @@ class ExtendedPropertyDictionary(MutableMapping[str, ExtendedPropertyValue]):
     ) -> tuple[type[ExtendedPropertyDictionary], tuple[dict[str, ExtendedPropertyValue]]]:
         """Return object state for pickling, excluding the callback."""
         return (self.__class__, (self._properties,))
+
+    def __setstate__(self, state: tuple[None, dict[str, Any]]) -> None:
+        """Restore a dictionary pickled by nitypes 1.0.0, which stored the slots without callbacks."""
+        self._properties = state[1]["_properties"]
+        self._on_key_changed = []
 
     def __repr__(self) -> str:
         """Return repr(self)."""
